@@ -383,9 +383,11 @@ func cmdCheck(args []string) int {
 			} else if kf := matchKnown(known, prop, name); kf != nil {
 				fmt.Printf("KNOWN-FINDING: property=%s %s [%s]\n", prop, kf.Description, name)
 				knownHit = append(knownHit, name)
+				r.Known++
 				continue
 			}
 			violations++
+			r.Violations++
 			path := writeConformReplay(prop, r, f)
 			if prop == "ALL" {
 				ps := f.props
@@ -429,7 +431,7 @@ func cmdCheck(args []string) int {
 	boundedEv := []interface{}{}
 	for _, r := range bounded {
 		boundedEv = append(boundedEv, r)
-		assumptions = append(assumptions, fmt.Sprintf("BOUNDED stand-in (not proof, not counted): %s %v on %s: %s; bound: %s; %d cases, %d failing, status %s", r.Test, r.Env, r.Pkg, r.What, r.Bound, r.Cases, r.Failures, r.Status))
+		assumptions = append(assumptions, fmt.Sprintf("BOUNDED stand-in (not proof, not counted): %s %v on %s: %s; bound: %s; %d cases, %d failing cases counted for this property (%d listed as known findings, %d reported), harness status %s", r.Test, r.Env, r.Pkg, r.What, r.Bound, r.Cases, r.Failures, r.Known, r.Violations, r.Status))
 	}
 	ev := map[string]interface{}{
 		"property_id": prop,
